@@ -48,7 +48,7 @@ func (e *BinaryOpExpr) tryRewriteExpr(ctx *CheckCtx) {
 func (e *BinaryOpExpr) checkWithAndOr(ctx *CheckCtx) error {
 	op := OperatorToString[e.Op]
 	switch exp := e.Left.(type) {
-	case *BinaryOpExpr, *FunctionCallExpr, *NotExpr, *FieldReferenceExpr:
+	case *BinaryOpExpr, *FunctionCallExpr, *NotExpr, *FieldReferenceExpr, *BoolExpr:
 		if e.Left.ReturnType() != TBOOL {
 			return NewSyntaxError(e.Left.GetPos(), "%s operator has wrong type of left expression %s", op, exp)
 		}
@@ -57,7 +57,7 @@ func (e *BinaryOpExpr) checkWithAndOr(ctx *CheckCtx) error {
 	}
 
 	switch exp := e.Right.(type) {
-	case *BinaryOpExpr, *FunctionCallExpr, *NotExpr, *FieldReferenceExpr:
+	case *BinaryOpExpr, *FunctionCallExpr, *NotExpr, *FieldReferenceExpr, *BoolExpr:
 		if exp.ReturnType() != TBOOL {
 			return NewSyntaxError(e.Right.GetPos(), "%s operator has wrong type of right expression %s", op, exp)
 		}
